@@ -1473,3 +1473,11 @@ package server
 //@   at call WriteBytes assert C09.files.before-boundary: lock.AofIndex < self.waofLock.AofIndex || (lock.AofIndex == self.waofLock.AofIndex && lock.AofOffset < self.waofLock.AofOffset)
 //@   at call WriteBytes#1 assert C09.files.record: arg1 == lock.buf
 //@   modifies all
+
+// C20: the holder queue's iteration: node 0 stands for the inline slice (empty when it is drained), node i+1 for node i
+// of the map-backed queue, the numbering IterNodeQueues reads with - so IterNodes yields one node more than the
+// map-backed queue has whenever that queue exists
+//@ func (*LockManagerLockQueue).IterNodes
+//@   requires self != nil
+//@   ensures C20.holder.iternodes: len(result) == ite(self.scaleQueue != nil, 1 + self.scaleQueue.tailNodeIndex - self.scaleQueue.headNodeIndex + 1, ite(self.fastQueue != nil && self.fastIndex < len(self.fastQueue), 1, 0))
+//@   modifies E_LJPserver_Lock
